@@ -7,12 +7,15 @@ import (
 	"bebopverif/internal/geneval"
 )
 
-// Import scenario: root.bop imports sub/a.bop, which imports b.bop that lies
-// next to it (so the path only resolves relative to the importer).
+// Import scenario: root.bop imports sub/a.bop, which imports deep/b.bop, which
+// imports c.bop lying next to it: every path only resolves relative to the
+// file that contains the import, at two levels below the root.
 const (
 	ImpRootPath = "/virt/root.bop"
 	ImpAPath    = "/virt/sub/a.bop"
-	ImpBPath    = "/virt/sub/b.bop"
+	ImpBPath    = "/virt/sub/deep/b.bop"
+	ImpCPath    = "/virt/sub/deep/c.bop"
+	ImpPkgC     = "example.com/x/impc"
 	ImpPkgA     = "example.com/x/imp"
 	ImpPkgB     = "example.com/x/impb"
 	ImpPkgRoot  = "example.com/x/root"
@@ -27,9 +30,12 @@ func (u *Universe) AddImportTypes() {
 	u.Types["IBs"] = TypeInfo{Name: "IBs", Class: ClsStruct}
 }
 
-func (g *Gen) importFiles() (root, a, b geneval.FileSpec, recs []RecordSpec) {
+func (g *Gen) importFiles() (root, a, b, c geneval.FileSpec, recs []RecordSpec) {
 	bb := g.B
 	S := geneval.Simple
+	c = geneval.FileSpec{GoPackage: ImpPkgC, Structs: []geneval.Value{
+		bb.Struct("ICs", false, 0, geneval.FieldSpec{Name: "z", Shape: S("int32")}),
+	}}
 	b = geneval.FileSpec{GoPackage: ImpPkgB, Structs: []geneval.Value{
 		bb.Struct("IBs", false, 0, geneval.FieldSpec{Name: "d", Shape: S("date")}),
 	}}
@@ -86,15 +92,17 @@ type ImportResult struct {
 
 // GenerateImports folds File.Generate over the import scenario.
 func (g *Gen) GenerateImports(o geneval.Options, combined bool) *ImportResult {
-	rootSpec, aSpec, bSpec, recs := g.importFiles()
+	rootSpec, aSpec, bSpec, cSpec, recs := g.importFiles()
 	res := &ImportResult{Combined: combined, Recs: recs}
+	cFile := g.B.File(cSpec)
 	bFile := g.B.File(bSpec)
+	bFile.Set("Imports", geneval.Strs("c.bop"))
 	aFile := g.B.File(aSpec)
-	aFile.Set("Imports", geneval.Strs("b.bop"))
+	aFile.Set("Imports", geneval.Strs("deep/b.bop"))
 	rootFile := g.B.File(rootSpec)
 	rootFile.Set("Imports", geneval.Strs("sub/a.bop"))
 	rootFile.Set("FileName", ImpRootPath)
-	g.In.VFS = map[string]*geneval.StructV{ImpAPath: aFile, ImpBPath: bFile}
+	g.In.VFS = map[string]*geneval.StructV{ImpAPath: aFile, ImpBPath: bFile, ImpCPath: cFile}
 	defer func() { g.In.VFS = nil }()
 	o.Combined = combined
 	extra := map[string]*types.Package{}
@@ -104,7 +112,7 @@ func (g *Gen) GenerateImports(o geneval.Options, combined bool) *ImportResult {
 			file *geneval.StructV
 			path string
 			name string
-		}{{bFile, ImpPkgB, ImpBPath}, {aFile, ImpPkgA, ImpAPath}} {
+		}{{cFile, ImpPkgC, ImpCPath}, {bFile, ImpPkgB, ImpBPath}, {aFile, ImpPkgA, ImpAPath}} {
 			dfc := dep.file
 			dfc.Set("FileName", dep.name)
 			gf := &GenFile{Opts: o, Batch: 900 + len(res.Deps), Methods: map[string]*ast.FuncDecl{}, Funcs: map[string]*ast.FuncDecl{}}
